@@ -2,6 +2,7 @@ import Pycoin.Proofs.Der
 import Pycoin.Proofs.SecRt
 import Pycoin.Proofs.CurveFacts.secp256k1
 import Pycoin.Proofs.KeyOrder
+import Pycoin.Proofs.Reduced
 import Pycoin.Proofs.DriverC10
 import Pycoin.Props.C11
 import Pycoin.Model.PyErr
@@ -445,6 +446,23 @@ theorem C10_sec_rt_secp256k1 (net : Addr.Network) (k : Key) (comp : Bool)
         rw [hon] at this
         cases this
     exact C10_sec_rt_compressed k1 C10_field_secp256k1.1 C10_field_secp256k1.2.1 net k hx0 hx hy1 hy hon
+
+/-- the public pair of a private key is a reduced curve point, so the key round-trips through SEC in both forms:
+`Key.from_sec(key.sec(f))` has the same point, the flag `f`, the same blob, hash160 and address (every network) -/
+theorem C10_key_sec_rt_secp256k1 (bf d : Int) (comp f : Bool) (h1 : 1 ≤ d) (h2 : d < k1.n) (net : Addr.Network) :
+    ∃ k blob k', keyFromSecret k1 bf d comp = .ok k ∧ k.sec (some f) = .ok blob ∧
+      keyFromSec k1 blob = .ok k' ∧ k'.pub = k.pub ∧ k'.compressed = f ∧ k'.sec none = .ok blob ∧
+      k'.hash160 none = k.hash160 (some f) ∧ Key.address net k' none = Key.address net k (some f) := by
+  obtain ⟨k, hk, -, -, hon⟩ := C10_key_ctor_accepts_secp256k1 bf d comp h1 h2
+  obtain ⟨-, -, -, -, hmul, -⟩ := (C10_key_ctor_sound k1 (mulG k1 bf) d comp k).1 hk
+  have rG : Reduced secp256k1 (basis secp256k1) := by
+    show 0 ≤ secp256k1.gx ∧ secp256k1.gx < secp256k1.p ∧ 0 ≤ secp256k1.gy ∧ secp256k1.gy < secp256k1.p
+    decide +kernel
+  have hred := mulG_reduced secp256k1 G_on_curve_secp256k1 rG prime_n_secp256k1.ne_zero
+    C10_field_secp256k1.2.2.1 order_G_secp256k1 bf d _ hmul
+  obtain ⟨hx0, hx, hy0, hy⟩ : 0 ≤ k.pub.1 ∧ k.pub.1 < k1.p ∧ 0 ≤ k.pub.2 ∧ k.pub.2 < k1.p := hred
+  obtain ⟨blob, k', e1, -, -, e2, e3, e4, -, e5, e6, e7⟩ := C10_sec_rt_secp256k1 net k f hx0 hx hy0 hy hon
+  exact ⟨k, blob, k', hk, e1, e2, e3, e4, e5, e6, e7⟩
 
 /-- the correspondence driver's multiplication (fixed-base loop over the table built once) is the model's
 `Generator.__mul__` with blinding factor 0; by C02 (`C02_blindedMul_eq`) the group element does not depend on the
